@@ -146,6 +146,11 @@ def run_case(tier, seed, index, spec=None):
     if spec is None:
         spec = G.gen_spec(rng, cls if not typed else rng.choice(['nonrec', 'linear']), [rng.choice(G.FORCED)], allow_inf=False, typed=typed, max_nodes=4)
         G.scale_recursive(spec, 0.3)
+        if cls == 'nonrec' and not typed and index % 8 == 4:
+            # weights of either sign: outside the nonnegative semiring, but "inputs are left bit-for-bit unchanged" and
+            # "same call, same result" do not depend on the sign of the numbers
+            for t_ in spec['terminals']:
+                spec['weights'][t_] = G.map_nested(spec['weights'][t_], lambda x: -x if rng.random() < 0.4 else x)
         if typed:
             for ps in spec['patterns'].values():
                 ps['physical'] = G.map_nested(ps['physical'], lambda x: x * 0.3)
@@ -254,7 +259,12 @@ def run_case(tier, seed, index, spec=None):
         for n in r.rhs.nodes():
             rhs.add_node(n)
         rhs.ext = list(r.rhs.ext)
-        for e in r.rhs.edges():
+        # edges in an order that is not "nonterminals by id, then terminals": a terminal edge of its own first, the
+        # nonterminal edges in reversed order (queries must leave this order alone, too)
+        ns_ = list(rhs.nodes())
+        if ns_:
+            rhs.add_edge(fggs.Edge(fggs.EdgeLabel('g2b_t_' + ns_[0].label.name, [ns_[0].label], is_terminal=True), [ns_[0]], id=f'g2bt{len(g2b.all_rules())}'))
+        for e in reversed(list(r.rhs.edges())):
             rhs.add_edge(fggs.Edge(ren[e.label.name], list(e.nodes), id=e.id))
         g2b.add_rule(fggs.HRGRule(ren[r.lhs.name], rhs))
     pool = [q for q in QUERIES if not (q == 'sp-real-linear' and not linear_ok) and not (q == 'viterbi' and asst is None) and not (q == 'factorize_rule' and rule0 is None)]
